@@ -141,7 +141,7 @@ def sig_trunc_multistream(c, i, m, k):
 
 CFG = {
     "manifest": {
-        "text": "Proof: Lean theorems (Props/C03.lean) over the transition system Model/FileRestart (files, jobs, per-stream committed offsets, offsets file, in-flight events; ops append / rename-rotate / truncate / readTurn (the C06 worker model) / deliver / ack / commit / save / crash / restart): no_loss_partial (every admitted complete line is acked in some run or handed to the output after the restart, for every history without truncation in which at each crash every stream of a file with an un-acked line has an entry in the saved offsets; includes lines appended and files renamed while down), no_loss_single_stream, no_false_skip, truncation theorems for single-stream files, and the full statement NoLoss with no_loss_counterexample (a1 b2 a3). Tie: the real file.Plugin + pipeline run in child processes that are SIGKILLed and restarted; the observed boundary trace (PassEvent results, output hand-offs, acks, commits, offsets file at the kill) is replayed through the model's step relation on every run.",
+        "text": "Proof: Lean theorems (Props/C03.lean) over the transition system Model/FileRestart (files, jobs, per-stream committed offsets, offsets file, in-flight events; ops append / rename-rotate / truncate / readTurn (the C06 worker model) / deliver / ack / commit / save / crash / restart): no_loss_partial (every admitted complete line is acked in some run or handed to the output after the restart, for every history without truncation in which at each crash every stream of a file with an un-acked line has an entry in the saved offsets; includes lines appended and files renamed while down), no_loss_single_stream, no_false_skip; for single-stream pipelines truncation_restart (detection puts the job back to 0, commits of all events in flight are ignored) and truncation_delivery (every line written after a detected truncation is delivered); the full statements NoLoss / TruncationRestartAnyStreams with no_loss_counterexample (a1 b2 a3) and truncation_multistream_counterexample. Tie: the real file.Plugin + pipeline run in child processes that are SIGKILLed and restarted; the observed boundary trace (PassEvent results, output hand-offs, acks, commits, offsets file at the kill) is replayed through the model's step relation on every run.",
         "note": "Known finding on the unchanged tree: with several streams in one file an un-acked line of a stream that has no entry in the saved offsets is skipped on restart (witness in corpus/C03). Trusted: Lean kernel + standard axioms; fdmodel compilation; the harness; OS semantics of rename/inode identity and of SIGKILL (page cache survives); per-stream in-order acknowledgement by the output (C02). Assumed, not proved: the pipeline hands every event it accepted to the output (C04).",
         "technique": "Lean 4 proof (inductive invariant over all op sequences, composed with the C06 reader model) + process-level trace correspondence (kill -9 / restart of the real plugin)",
     },
